@@ -175,3 +175,9 @@ mod tests {
         net.set_backend(0, None).unwrap();
     }
 }
+
+// Verification harnesses (Kani); the sources live outside this repository.
+#[cfg(feature = "verif")]
+mod verif {
+    include!(concat!(env!("VHOST_VERIF_DIR"), "/harness/vk_net.rs"));
+}
